@@ -84,6 +84,10 @@ def registry(bs=16, state=None, buf='bytes|memoryview'):
     for nm in ('xor_ac', 'xor_zero'):
         lemma_contract(reg, 'spec.aead1.lemma_%s%d' % (nm, bs), {'a': 'bytes', 'b': 'bytes', 'c': 'bytes'} if nm == 'xor_ac' else {'a': 'bytes'})
     AC = 'spec.aead1.lemma_xor_ac%d' % bs
+    DBL = 'spec.aead1.lemma_dbl_mod%d' % bs
+    lemma_contract(reg, DBL, {'a': 'int'})
+    DBLC = 'spec.aead1.lemma_dbl_code%d' % bs
+    lemma_contract(reg, DBLC, {'x': 'bytes'}).instances = {'exit': ['%s(2 * be(x))' % DBL]}
     SPLIT = 'spec.aead1.lemma_omac_split%d' % bs
     lemma_contract(reg, SPLIT, {'fid': 'int', 'key': 'bytes', 'blocks': 'bytes', 'rest': 'bytes', 'tlen': 'int'},
                    opaque=['spec.aead1.omac_parts'])
@@ -105,7 +109,7 @@ def registry(bs=16, state=None, buf='bytes|memoryview'):
     # ------------------------------------------------------------------ update (C09 / C10)
     refused = 'self._mac_tag is not None and not self._update_after_digest'
     nat.bytearray_fields_at_call_sites(reg, Contract(
-        CM + '.update', params={'msg': buf}, raises={'TypeError': ('iff', refused)},
+        CM + '.update', params={'msg': buf}, raises={'TypeError': ('iff', refused)}, returns='self',
         ensures=ens({'message': '%s == %s + bytes(msg)' % (M, OM), 'self': 'result is self'}),
         # stepping stones for the path "cache filled up, whole blocks chained, rest cached": the message splits at the fill
         # point f = bs - old(_cache_n) and at the start of the new rest
@@ -137,6 +141,24 @@ def registry(bs=16, state=None, buf='bytes|memoryview'):
                      ensures=ens({'cached': 'self._mac_tag == %s' % TAGV, 'none': 'result is None'}),
                      sets={'self._mac_tag': TAGV}, modifies=['self._mac_tag'], opaque=OPQ,
                      options={'on_raise_modifies': ['self._mac_tag']}))
+    # ------------------------------------------------------------------ construction (C03: sub-keys K1, K2)
+    L0 = 'spec.aead1.E(%s, %s, bytes(%s))' % (FID, KEY, BS)          # L = CIPH_K(0^b)
+    RBV = 135 if bs == 16 else 27
+    nat.ctor_at_call_sites(reg, Contract(
+        CM + '.__init__', params={'key': 'buffer', 'msg': 'none|bytes|memoryview', 'ciphermod': 'obj:' + nat.FACTORY, 'cipher_params': 'dict()',
+                                  'mac_len': 'nat', 'update_after_digest': 'bool'},
+        raises={'TypeError': ('iff', 'ciphermod.block_size not in (8, 16)')},
+        ensures=ens({'message': '%s == (bytes(msg) if msg is not None else b"")' % M, 'no_tag': 'self._mac_tag is None',
+                     'params': 'conj(self.digest_size == mac_len, self._update_after_digest == update_after_digest, self._block_size == %s)' % BS,
+                     'cipher': 'conj(%s == ciphermod.g_fid, %s == bytes(key))' % (FID, KEY)}),
+        lemmas={'exit': dict(
+            [('k1_' + w, 'impl(nth(%s, 0) %s 128, self._k1 == spec.aead1.ibe(%s %% 2**%d, %s))' % (L0, c_, v_ % ('2 * be(%s)' % L0), 8 * bs, BS))
+             for w, c_, v_ in (('hi', '>=', '((%%s) ^ %d)' % RBV), ('lo', '<', '(%s)'))] +
+            [('k2_' + w, 'impl(nth(self._k1, 0) %s 128, self._k2 == spec.aead1.ibe(%s %% 2**%d, %s))' % (c_, v_ % '2 * be(self._k1)', 8 * bs, BS))
+             for w, c_, v_ in (('hi', '>=', '((%%s) ^ %d)' % RBV), ('lo', '<', '(%s)'))])},
+        instances={'exit': ['%s(%s)' % (DBLC, L0), '%s(self._k1)' % DBLC]},
+        modifies=['self.*'], options={'assume_valid': False}, opaque=['spec.aead1.omac', 'spec.aead1.bx', 'spec.aead1.dbl']),
+        dict(fields, _mac_tag='none', _update_after_digest='bool'))
     return reg
 
 
